@@ -10,6 +10,7 @@ import (
 	"math"
 	"reflect"
 	"sort"
+	"strconv"
 	"strings"
 
 	"github.com/emirpasic/gods/v2/maps/hashbidimap"
@@ -29,11 +30,13 @@ type Key struct {
 	R Rep
 }
 
+// String shows the rank in units of the insertion spacing (k0, k1, k0.5 = inserted between them).
 func (k Key) String() string {
+	c := strconv.FormatFloat(float64(k.C)/float64(rankStep), 'g', -1, 64)
 	if k.R == 0 {
-		return fmt.Sprintf("k%d", int64(k.C))
+		return "k" + c
 	}
-	return fmt.Sprintf("k%d'%d", int64(k.C), int(k.R))
+	return fmt.Sprintf("k%s'%d", c, int(k.R))
 }
 
 const rankStep = int64(1) << 40
@@ -65,6 +68,7 @@ type kvAPI[K comparable, V comparable] struct {
 	setIter  func() *IterDyn      // TreeSet seen through the key-value adapter: (index, member) iterator
 	walk     func() []kvEnt[K, V] // independent walk over the exported structure
 	shape    func() *Viol         // exported-structure invariants (C07)
+	extras   func(b any) *Viol    // the remaining exported entry points (GetNode, Node.Size/Next/Prev, IteratorAt, Iterator.Node)
 	bound    func(n int) float64  // comparator-call bound for one Get/Put/Remove with n keys
 	putMul   int
 	remMul   int
@@ -219,6 +223,7 @@ func (s *KVSys[K, V]) api(b *kvBox[K, V]) *kvAPI[K, V] {
 			iter:    func() *IterDyn { return keyIterRev[K, V](t.Iterator()) },
 			walk:    func() []kvEnt[K, V] { return rbtWalk(t.Root, nil) },
 			shape:   func() *Viol { return rbtShape(t) },
+			extras:  func(bx any) *Viol { return rbtExtras(t, bx.(*kvBox[K, V])) },
 			bound:   rbBound, putMul: 1, remMul: 1}
 	case "avl":
 		t := avltree.NewWith[K, V](b.kc())
@@ -242,6 +247,7 @@ func (s *KVSys[K, V]) api(b *kvBox[K, V]) *kvAPI[K, V] {
 			iter:    func() *IterDyn { return keyIterRev[K, V](t.Iterator()) },
 			walk:    func() []kvEnt[K, V] { return avlWalk(t.Root, nil) },
 			shape:   func() *Viol { return avlShape(t) },
+			extras:  func(bx any) *Viol { return avlExtras(t, bx.(*kvBox[K, V])) },
 			bound:   avlBound, putMul: 1, remMul: 1}
 	case "btree":
 		t := btree.NewWith[K, V](s.Order, b.kc())
@@ -277,6 +283,7 @@ func (s *KVSys[K, V]) api(b *kvBox[K, V]) *kvAPI[K, V] {
 			iter:  func() *IterDyn { return keyIterRev[K, V](t.Iterator()) },
 			walk:  func() []kvEnt[K, V] { return btWalk(t.Root, nil) },
 			shape: func() *Viol { return btShape(t, s.Order) },
+			extras: func(bx any) *Viol { return btExtras(t, bx.(*kvBox[K, V])) },
 			bound: btBound(s.Order), putMul: 1, remMul: 1}
 	case "treemap":
 		return wrapTreeMap(treemap.NewWith[K, V](b.kc()))
@@ -464,6 +471,162 @@ func btShape[K comparable, V comparable](t *btree.Tree[K, V], m int) *Viol {
 	}
 	if h := t.Height(); h != levels {
 		return viol(p, "invariant", "B-tree(order %d): Height() = %d but the tree has %d levels", m, h, levels)
+	}
+	return nil
+}
+
+// ---- the remaining exported entry points of the three trees ----------------------
+
+var pNav = []string{"C02", "C01"}
+
+func rbtExtras[K comparable, V comparable](t *redblacktree.Tree[K, V], b *kvBox[K, V]) *Viol {
+	n := len(b.ref)
+	if got := t.Root.Size(); got != n {
+		return viol(tag("C07", "C01"), "invariant", "RedBlackTree Root.Size() = %d, reference has %d keys", got, n)
+	}
+	for _, pk := range b.probes() {
+		node := t.GetNode(pk)
+		i := b.find(pk)
+		if (node != nil) != (i >= 0) {
+			return viol(pNav, "mismatch", "RedBlackTree.GetNode(%v) = %v, reference index %d", pk, node, i)
+		}
+		if node == nil {
+			continue
+		}
+		if !b.sameK(node.Key, b.ref[i].k) || node.Value != b.ref[i].v {
+			return viol(pNav, "mismatch", "RedBlackTree.GetNode(%v) holds %v:%v, reference %v:%v", pk, node.Key, node.Value, b.ref[i].k, b.ref[i].v)
+		}
+		if node.String() != fmt.Sprintf("%v", node.Key) {
+			return viol(pNav, "mismatch", "Node.String() = %q", node.String())
+		}
+		// an iterator initialised at this node: reads it, Next is the successor, Prev the predecessor
+		it := t.IteratorAt(node)
+		if !b.sameK(it.Key(), b.ref[i].k) || it.Value() != b.ref[i].v || it.Node() != node {
+			return viol(tag("C08", "C02"), "mismatch", "IteratorAt(node %v) reads %v:%v", node.Key, it.Key(), it.Value())
+		}
+		if ok := it.Next(); ok != (i+1 < n) || (ok && (!b.sameK(it.Key(), b.ref[i+1].k) || it.Value() != b.ref[i+1].v)) {
+			return viol(tag("C08", "C02"), "mismatch", "IteratorAt(node %v).Next() = %v, reference successor index %d of %d", node.Key, ok, i+1, n)
+		}
+		it = t.IteratorAt(node)
+		if ok := it.Prev(); ok != (i > 0) || (ok && (!b.sameK(it.Key(), b.ref[i-1].k) || it.Value() != b.ref[i-1].v)) {
+			return viol(tag("C08", "C02"), "mismatch", "IteratorAt(node %v).Prev() = %v, reference predecessor index %d", node.Key, ok, i-1)
+		}
+	}
+	return nil
+}
+
+func avlExtras[K comparable, V comparable](t *avltree.Tree[K, V], b *kvBox[K, V]) *Viol {
+	n := len(b.ref)
+	if got := t.Root.Size(); got != n {
+		return viol(tag("C07", "C01"), "invariant", "AVLTree Root.Size() = %d, reference has %d keys", got, n)
+	}
+	for _, pk := range b.probes() {
+		node := t.GetNode(pk)
+		i := b.find(pk)
+		if (node != nil) != (i >= 0) {
+			return viol(pNav, "mismatch", "AVLTree.GetNode(%v) = %v, reference index %d", pk, node, i)
+		}
+		if node != nil && (!b.sameK(node.Key, b.ref[i].k) || node.Value != b.ref[i].v) {
+			return viol(pNav, "mismatch", "AVLTree.GetNode(%v) holds %v:%v, reference %v:%v", pk, node.Key, node.Value, b.ref[i].k, b.ref[i].v)
+		}
+		if node != nil && node.String() != fmt.Sprintf("%v", node.Key) {
+			return viol(pNav, "mismatch", "Node.String() = %q", node.String())
+		}
+	}
+	// Node.Next() from the least node walks the whole sequence; Node.Prev() from the greatest walks it back
+	i := 0
+	for nd := t.Left(); nd != nil; nd = nd.Next() {
+		if i >= n || !b.sameK(nd.Key, b.ref[i].k) || nd.Value != b.ref[i].v {
+			return viol(pNav, "mismatch", "AVL Node.Next() walk: element #%d = %v:%v, reference %v", i, nd.Key, nd.Value, b.refString())
+		}
+		i++
+	}
+	if i != n {
+		return viol(pNav, "mismatch", "AVL Node.Next() walk visits %d nodes, reference has %d", i, n)
+	}
+	i = n - 1
+	for nd := t.Right(); nd != nil; nd = nd.Prev() {
+		if i < 0 || !b.sameK(nd.Key, b.ref[i].k) {
+			return viol(pNav, "mismatch", "AVL Node.Prev() walk: element at %d = %v, reference %v", i, nd.Key, b.refString())
+		}
+		i--
+	}
+	if i != -1 {
+		return viol(pNav, "mismatch", "AVL Node.Prev() walk stopped at position %d", i)
+	}
+	it := t.Iterator()
+	for it.Next() {
+		if nd := it.Node(); nd == nil || !b.sameK(nd.Key, it.Key()) {
+			return viol(tag("C08"), "mismatch", "AVL Iterator.Node() = %v while Key() = %v", nd, it.Key())
+		}
+	}
+	return nil
+}
+
+func btExtras[K comparable, V comparable](t *btree.Tree[K, V], b *kvBox[K, V]) *Viol {
+	n := len(b.ref)
+	nodes := 0
+	var count func(nd *btree.Node[K, V], d int)
+	count = func(nd *btree.Node[K, V], d int) {
+		if nd == nil || d > 64 {
+			return
+		}
+		nodes++
+		for _, c := range nd.Children {
+			count(c, d+1)
+		}
+	}
+	count(t.Root, 0)
+	if got := t.Root.Size(); got != nodes {
+		return viol(tag("C07"), "invariant", "BTree Root.Size() = %d but the tree has %d nodes", got, nodes)
+	}
+	for _, pk := range b.probes() {
+		node := t.GetNode(pk)
+		i := b.find(pk)
+		if (node != nil) != (i >= 0) {
+			return viol(pNav, "mismatch", "BTree.GetNode(%v) = %v, reference index %d", pk, node, i)
+		}
+		if node != nil {
+			found := false
+			for _, e := range node.Entries {
+				if b.sameK(e.Key, b.ref[i].k) && e.Value == b.ref[i].v {
+					found = true
+					if e.String() != fmt.Sprintf("%v", e.Key) {
+						return viol(pNav, "mismatch", "Entry.String() = %q", e.String())
+					}
+				}
+			}
+			if !found {
+				return viol(pNav, "mismatch", "BTree.GetNode(%v) returned a node that does not hold the binding %v:%v", pk, b.ref[i].k, b.ref[i].v)
+			}
+		}
+	}
+	l, r := t.Left(), t.Right()
+	if (l == nil) != (n == 0) || (r == nil) != (n == 0) {
+		return viol(pNav, "mismatch", "BTree.Left()/Right() = %v/%v with %d keys", l, r, n)
+	}
+	if n > 0 {
+		if len(l.Children) != 0 || !b.sameK(l.Entries[0].Key, b.ref[0].k) {
+			return viol(pNav, "mismatch", "BTree.Left() is not the leaf holding the least key")
+		}
+		if len(r.Children) != 0 || !b.sameK(r.Entries[len(r.Entries)-1].Key, b.ref[n-1].k) {
+			return viol(pNav, "mismatch", "BTree.Right() is not the leaf holding the greatest key")
+		}
+	}
+	it := t.Iterator()
+	for it.Next() {
+		nd := it.Node()
+		ok := false
+		if nd != nil {
+			for _, e := range nd.Entries {
+				if b.sameK(e.Key, it.Key()) {
+					ok = true
+				}
+			}
+		}
+		if !ok {
+			return viol(tag("C08"), "mismatch", "BTree Iterator.Node() does not hold the key %v the iterator reads", it.Key())
+		}
 	}
 	return nil
 }
@@ -939,6 +1102,11 @@ func (b *kvBox[K, V]) CheckState() *Viol {
 	}
 	if b.a.shape != nil {
 		if v := b.a.shape(); v != nil {
+			return v
+		}
+	}
+	if b.a.extras != nil {
+		if v := b.a.extras(b); v != nil {
 			return v
 		}
 	}
